@@ -415,6 +415,19 @@ static int run_scenario(std::vector<std::string>& lines)
       g_pcap_exit = 0; g_pcap_repeat = 0;
       bool ok = in->drv->init(p);
       if (!ok) { fprintf(OUT, "initfail %d\n", in->idx); if (!path.empty()) unlink(path.c_str()); continue; }
+      auto send_all = [&](bool paced) {
+        int s = socket(AF_INET, SOCK_DGRAM, 0);
+        for (auto& d : in->dgrams)
+        {
+          struct sockaddr_in a; memset(&a, 0, sizeof a); a.sin_family = AF_INET; a.sin_port = htons((uint16_t)d.first); a.sin_addr.s_addr = htonl(INADDR_LOOPBACK);
+          static const uint8_t none = 0;
+          sendto(s, d.second.empty() ? &none : d.second.data(), d.second.size(), 0, (struct sockaddr*)&a, sizeof a);
+          if (paced) std::this_thread::sleep_for(std::chrono::microseconds(400));
+        }
+        close(s);
+      };
+      // mode 4: the whole burst is queued in the socket buffer before the receiver starts
+      if (in->in_mode == 4) { send_all(false); std::this_thread::sleep_for(std::chrono::milliseconds(20)); }
       in->drv->start();
       auto impl = in->drv->driver_ptr_;
       auto drained = [&]() {
@@ -425,17 +438,9 @@ static int run_scenario(std::vector<std::string>& lines)
         }
         return true;
       };
-      if (in->in_mode == 2)
+      if (in->in_mode == 2 || in->in_mode == 4)
       {
-        int s = socket(AF_INET, SOCK_DGRAM, 0);
-        for (auto& d : in->dgrams)
-        {
-          struct sockaddr_in a; memset(&a, 0, sizeof a); a.sin_family = AF_INET; a.sin_port = htons((uint16_t)d.first); a.sin_addr.s_addr = htonl(INADDR_LOOPBACK);
-          static const uint8_t none = 0;
-          sendto(s, d.second.empty() ? &none : d.second.data(), d.second.size(), 0, (struct sockaddr*)&a, sizeof a);
-          std::this_thread::sleep_for(std::chrono::microseconds(400));
-        }
-        close(s);
+        if (in->in_mode == 2) send_all(true);
         std::this_thread::sleep_for(std::chrono::milliseconds(40));
         for (int k = 0; k < 3000 && !drained(); k++) std::this_thread::sleep_for(std::chrono::milliseconds(2));
       }
